@@ -99,6 +99,7 @@ impl T {
     }
 
     /// does a value of this type exist?
+    #[allow(dead_code)]
     pub fn inhabited(&self, env: &Env) -> bool {
         match self {
             T::Never => false,
@@ -121,6 +122,7 @@ impl T {
         }
     }
 
+    #[allow(dead_code)]
     pub fn has_never(&self, env: &Env) -> bool {
         match self {
             T::Never => true,
